@@ -167,6 +167,19 @@ def main(tier, seed):
     for u, a, cls in TG.idn_tld_pairs(mdl):
         pairs.append((b"mail." + u, b"mail." + a))
         pairs.append((u, a))
+    # long, repetitive labels of 2-, 3- and 4-octet code points: the U spelling grows to 3-4 octets per character (beyond 765 / 1000
+    # octets) while the A spelling stays within 63 / 253 - any fixed-size copy or length pre-check of the U form shows here
+    for cp in (0x20000, 0x20bb7, 0x4e2d, 0xac00, 0x436):
+        for reps in (10, 20, 30, 40, 47, 50, 53, 56, 59):
+            lab = chr(cp) * reps
+            alab = b"xn--" + lab.encode("punycode")
+            if len(alab) > 63:
+                continue
+            for nl in (1, 2, 3, 4, 5):
+                for tld in (b"com", b"org"):
+                    A = b".".join([alab] * nl) + b"." + tld
+                    if len(A) <= 253:
+                        pairs.append((b".".join([lab.encode("utf-8")] * nl) + b"." + tld, A))
     jobs = [(w_pairs, (exe, pairs[i:i + 800], "idn")) for i in range(0, len(pairs), 800)]
     # all-ASCII domains of the C04/C07 generators
     asc = set(domgen.host_pool_len()) | {d for d in gen.corpus_domains() if max(d) < 0x80}
